@@ -49,6 +49,7 @@ type AssertSpec struct {
 	Assume []Clause // never allowed in verified functions; rejected by loader
 	Uses   []UseHint
 	Ghost  []GhostUpdate
+	Block  []Clause
 	bound  bool
 	File   string
 	Line   int
@@ -455,6 +456,12 @@ func (w *World) loadSpecFile(path, pkg string) error {
 					return err
 				}
 				a.Uses = append(a.Uses, u)
+			case strings.HasPrefix(body, "blockif"):
+				c, err := parseClause(pkg, strings.TrimSpace(body[len("blockif"):]), r.file, r.line)
+				if err != nil {
+					return err
+				}
+				a.Block = append(a.Block, c)
 			case strings.HasPrefix(body, "ghost"):
 				gb := strings.TrimSpace(body[len("ghost"):])
 				eq := strings.Index(gb, "=")
